@@ -5,8 +5,9 @@ Within reach of function contracts (claimed):
     exactly the unaberrated theory's field (through the real _calculate_phase / legval / pupil-integral / raw_fields code);
   * the generic lens wrapper gives the same integrands, integrals and fields whether or not the optional acceleration
     library (numexpr) is used - its expression strings denote the same formulas as the numpy branch.
-Out of reach (stated, not claimed): "equal once the quadrature is converged", refinement independence and interpolated =
-direct evaluation are approximation-error statements of numerical analysis in floating point.
+Out of reach (stated, not claimed): "equal once the quadrature is converged" and refinement independence are approximation-error
+statements of numerical analysis in floating point (and need the Fortran Lorenz-Mie solver).  Interpolated = directly evaluated radial
+integrals is an approximation-error statement too: it has a sampled native contract over the property's ranges (bounded, never proved).
 """
 import contextlib
 import sys
@@ -31,7 +32,8 @@ TH = "holopy.scattering.theory."
 META = {
     'out_of_reach': ["analytic Mie+lens = lens-wrapped Lorenz-Mie 'once the quadrature is converged', and independence of quadrature refinement: "
                      "approximation-error statements (and the Lorenz-Mie solver is Fortran, not built here)",
-                     "interpolated = directly evaluated radial integrals: Chebyshev approximation error, numerical analysis in floating point"],
+                     "interpolated = directly evaluated radial integrals: Chebyshev approximation error, numerical analysis in floating point - "
+                     "not provable here; checked by sampled native runs over the stated ranges (interpolated_equals_direct_native, bounded)"],
     'assumptions': ["Gauss-Legendre points / weights are arbitrary reals (2 or 3 of them: bounded), the Mie far-field matrices S, P at a quadrature "
                     "point and the Bessel functions j0, j1 are opaque deterministic functions of their arguments",
                     "numexpr.evaluate(expr) evaluates the expression string with numpy's elementwise semantics over the caller's local variables "
@@ -360,3 +362,30 @@ def theory_object_reuse(c):
                                                               calculator_accuracy_kwargs={'interpolate_integrals': False})), **kw).values
     c.ensures("interpolated-agrees-with-direct-to-1e-6", bool(np.allclose(got_same_sphere, direct, rtol=1e-6, atol=1e-8)),
               detail="max |interpolated(used object) - direct| = %g" % float(np.abs(got_same_sphere - direct).max()))
+
+
+@contract("C08", "interpolated_equals_direct_native", [TH + "mielensfunctions:MieLensCalculator._interpolate_and_eval_mielens_i_n",
+                                                       TH + "mielensfunctions:MieLensCalculator._direct_eval_mielens_i_n",
+                                                       TH + "mielensfunctions:MieLensCalculator.calculate_scattered_field"], native_only=True,
+          bounded="native sampling over the property's own ranges: lens angle 0.1-1.4 rad, k*z in [-150, 300], relative index 1.05-2.5, size parameter "
+                  "0.1-50, 150 radial points up to k*rho = 50 / 300 / 1200; agreement demanded to 1e-8 of the largest field component (the unchanged "
+                  "interpolator delivers about 1e-10: an approximation-error statement, decided by sampling only)")
+def interpolated_equals_direct_native(c):
+    """the scattered field does not depend on whether the radial pupil integrals are interpolated or evaluated directly - over the whole
+    stated range of lens angles (small acceptance angles included), depths above and below the focus, sizes and indices"""
+    rng = np.random.RandomState(c.int("seed", 0, 10 ** 6))
+    la = c.real("lens_angle", sample=(0.1, 1.4))
+    kz = c.real("particle_kz", sample=(-150, 300))
+    m = c.real("index_ratio", sample=(1.05, 2.5))
+    x = 10 ** c.real("log10_size_parameter", sample=(-1, 1.69))
+    top = c.choice("largest_krho", [50, 300, 1200])
+    krho = np.sort(rng.uniform(0, top, size=150))
+    phi = rng.uniform(0, 2 * np.pi, size=150)
+    kw = dict(particle_kz=kz, index_ratio=m, size_parameter=x, lens_angle=la)
+    direct = mlf.MieLensCalculator(interpolate_integrals=False, **kw).calculate_scattered_field(krho, phi)
+    interp = mlf.MieLensCalculator(interpolate_integrals=True, **kw).calculate_scattered_field(krho, phi)
+    scale = max(np.abs(direct[0]).max(), np.abs(direct[1]).max())
+    err = max(np.abs(direct[0] - interp[0]).max(), np.abs(direct[1] - interp[1]).max()) / scale
+    c.ensures("field-independent-of-interpolation", bool(err < 1e-8),
+              detail="lens_angle %.3f, k*z %.1f, index ratio %.3f, size parameter %.3g: interpolated and direct fields differ by %.2e of the largest "
+                     "component" % (la, kz, m, x, err))
